@@ -85,9 +85,10 @@ func (n *rxNode) render(capture bool) string {
 }
 
 type rxEval struct {
-	tx  *corazawaf.Transaction
-	ts  plugintypes.TransactionState
-	waf coraza.WAF
+	capture bool // evaluate as a capturing rule does
+	tx      *corazawaf.Transaction
+	ts      plugintypes.TransactionState
+	waf     coraza.WAF
 }
 
 func newRxEval() (*rxEval, error) {
@@ -96,7 +97,7 @@ func newRxEval() (*rxEval, error) {
 		return nil, err
 	}
 	tx := w.NewTransaction()
-	return &rxEval{tx: tx.(*corazawaf.Transaction), ts: tx.(plugintypes.TransactionState), waf: w}, nil
+	return &rxEval{capture: true, tx: tx.(*corazawaf.Transaction), ts: tx.(plugintypes.TransactionState), waf: w}, nil
 }
 
 func (e *rxEval) close() { _ = e.tx.Close(); closeAny(e.waf) }
@@ -112,7 +113,7 @@ func (e *rxEval) run(o plugintypes.Operator, v string) (m bool, caps [10]string,
 	for i := 0; i < 10; i++ {
 		col.SetIndex(strconv.Itoa(i), 0, "\x00unset")
 	}
-	e.tx.Capture = true
+	e.tx.Capture = e.capture
 	m = o.Evaluate(e.ts, v)
 	for i := 0; i < 10; i++ {
 		if g := col.Get(strconv.Itoa(i)); len(g) > 0 {
@@ -235,6 +236,15 @@ func C11(run *vf.Run) {
 				if p1 != "" || p2 != "" {
 					report("panic", pat, in, p1+p2, feature(pat))
 					continue
+				}
+				// the same without capturing (non-capturing rules take other fast paths)
+				ev.capture = false
+				nOn, _, p3 := ev.run(on, string(in))
+				ev.capture = true
+				if p3 != "" {
+					report("panic", pat, in, p3, feature(pat))
+				} else if nOn != mOff {
+					report("match-differs", pat, in, fmt.Sprintf("non-capturing rule, prefilter on: %v, prefilter off (and RxPF.tla): %v", nOn, mOff), feature(pat))
 				}
 				nt := ""
 				if r.Row[k] {
@@ -385,6 +395,14 @@ func c11Differential(run *vf.Run, ev *rxEval, report func(kind, pattern string, 
 				if p1 != "" || p2 != "" {
 					report("panic", pat, []byte(in), p1+p2, "full-syntax")
 					continue
+				}
+				ev.capture = false
+				nOn, _, p3 := ev.run(on, in)
+				ev.capture = true
+				if p3 != "" {
+					report("panic", pat, []byte(in), p3, "full-syntax")
+				} else if nOn != mOff {
+					report("match-differs", pat, []byte(in), fmt.Sprintf("non-capturing rule, prefilter on: %v, prefilter off: %v", nOn, mOff), "pattern-"+vf.Hash(pat))
 				}
 				if mOn != mOff {
 					report("match-differs", pat, []byte(in), fmt.Sprintf("prefilter on: %v, prefilter off: %v", mOn, mOff), "pattern-"+vf.Hash(pat))
